@@ -123,6 +123,10 @@ type S2 struct {
 	b uint64
 }
 
+type FS struct {
+	fn func(uint64) uint64
+}
+
 const K1 uint64 = 10
 
 const K32 uint32 = 7
